@@ -16,6 +16,7 @@ CONSTANTS
   MaxDiscs = 8
   VerifyArgs <- VArgs
   Ticks = {0}
+  NarrowSels <- NoNarrow
   KeyFam <- Fam
 INVARIANTS Inv_C01 Inv_C13 Inv_IssueRel EmitScenario
 CHECK_DEADLOCK FALSE
